@@ -1,5 +1,6 @@
 import Mrpro.Model.Functional
 import Mrpro.Lemmas.FunctionalL
+import Mrpro.Lemmas.SrcProxL
 /-! # C08 — functionals evaluate their definition and prox is the true minimiser
 
 Per-element statements over any linearly ordered field (the tensor prox is the element-wise prox
@@ -40,6 +41,32 @@ theorem moreau_l1 (w σ n t x : K) (hσ : 0 < σ) (hn : 0 < n) :
     x = l1ProxEl w σ n t x + σ * l1ConjProxEl w (1 / σ) n t (x / σ) := M.moreau_l1 w σ n t x hσ hn
 theorem moreau_l2 (w σ n t x : K) (hσ : 0 < σ) (hn : 0 < n) :
     x = l2ProxEl w σ n t x + σ * l2ConjProxEl w (1 / σ) n t (x / σ) := M.moreau_l2 w σ n t x hσ hn
+/-! ### Tie to the source (regenerated on every run): the per-element formulas of `L1Norm.prox`, `L1Norm.prox_convex_conj`,
+`L2NormSquared.prox` and `L2NormSquared.prox_convex_conj` *as they stand in `/repo` now* (`Mrpro/Gen/Src.lean`; argument order of first
+use in the source) are the model functions — and therefore are the global minimisers and satisfy Moreau's identity themselves. -/
+theorem src_l1_prox (w σ n t x : K) : M.Src.prox_l1_prox x t w σ n = l1ProxEl w σ n t x := M.SrcL.prox_l1_eq w σ n t x
+theorem src_l1_prox_conj (w σ n t x : K) : M.Src.prox_l1_prox_conj x σ t w n = l1ConjProxEl w σ n t x := M.SrcL.prox_l1_conj_eq w σ n t x
+theorem src_l2_prox (w σ n t x : K) : M.Src.prox_l2_prox w σ n x t = l2ProxEl w σ n t x := M.SrcL.prox_l2_eq w σ n t x
+theorem src_l2_prox_conj (w σ n t x : K) : M.Src.prox_l2_prox_conj w n x σ t = l2ConjProxEl w σ n t x := M.SrcL.prox_l2_conj_eq w σ n t x
+/-- the formula in the source of `L1Norm.prox` is the global minimiser … -/
+theorem src_l1_prox_argmin (w σ n t x p : K) (hσ : 0 ≤ σ) (hn : 0 < n) :
+    σ * (l1ValEl w t (M.Src.prox_l1_prox x t w σ n) / n) + (x - M.Src.prox_l1_prox x t w σ n) ^ 2 / 2
+      ≤ σ * (l1ValEl w t p / n) + (x - p) ^ 2 / 2 := by
+  rw [src_l1_prox]; exact l1Prox_argmin w σ n t x p hσ hn
+/-- … so is the one of `L2NormSquared.prox` … -/
+theorem src_l2_prox_argmin (w σ n t x p : K) (hσ : 0 ≤ σ) (hn : 0 < n) :
+    σ * (l2ValEl w t (M.Src.prox_l2_prox w σ n x t) / n) + (x - M.Src.prox_l2_prox w σ n x t) ^ 2 / 2
+      ≤ σ * (l2ValEl w t p / n) + (x - p) ^ 2 / 2 := by
+  rw [src_l2_prox]; exact l2Prox_argmin w σ n t x p hσ hn
+/-- … and the source formulas of prox and conjugate prox satisfy Moreau's identity with each other -/
+theorem src_moreau_l1 (w σ n t x : K) (hσ : 0 < σ) (hn : 0 < n) :
+    x = M.Src.prox_l1_prox x t w σ n + σ * M.Src.prox_l1_prox_conj (x / σ) (1 / σ) t w n := by
+  rw [src_l1_prox, src_l1_prox_conj]; exact moreau_l1 w σ n t x hσ hn
+theorem src_moreau_l2 (w σ n t x : K) (hσ : 0 < σ) (hn : 0 < n) :
+    x = M.Src.prox_l2_prox w σ n x t + σ * M.Src.prox_l2_prox_conj w n (x / σ) (1 / σ) t := by
+  rw [src_l2_prox, src_l2_prox_conj]; exact moreau_l2 w σ n t x hσ hn
+example : M.Src.prox_l1_prox (5 : Rat) 1 2 1 1 = 3 ∧ M.Src.prox_l2_prox (1 : Rat) 1 1 6 0 = 2 := by decide +kernel
+
 /-- the generic fallback *is* Moreau's identity for any prox (used by `L1NormViewAsReal`) -/
 theorem moreau_generic (prox : K → K → K) (σ x : K) (hσ : 0 < σ) :
     x = prox x σ + σ * genericConjProx prox (1 / σ) (x / σ) := M.moreau_generic prox σ x hσ
